@@ -4,6 +4,5 @@
 #define BITS(x) UF(bits)(x)
 /* a usable table object: TMCG_MAX_FPOWM_T integers */
 #define TABLE_OK(t) __CPROVER_is_fresh((t), TMCG_MAX_FPOWM_T * sizeof(mpz_t))
-#define MPZ_OK(x) __CPROVER_is_fresh((x), sizeof(__mpz_struct))
 #define THROWN_IS(e) (__tmcg_thrown == (e))
 #endif
